@@ -177,9 +177,23 @@ pub fn run(ctx: &mut Ctx) {
             ctx.count("cross_version_pairs");
         }
         let mut rng = Rng::derive(ctx.seed, &format!("c10/{}", label));
+        // families of the additional thorough-tier zoo are labelled XF<n>
+        #[cfg(feature = "extra_zoo")]
+        let fams = if p.family.starts_with('X') { vcore::zoo_extra::families() } else { vcore::zoo::families() };
+        #[cfg(not(feature = "extra_zoo"))]
+        let fams = vcore::zoo::families();
+        let caller_entry = fams.get(p.index).and_then(|f| f.versions.get(i as usize));
         for n in 0..nvals {
             // ---- arguments: caller -> implementation
             let g = model::gen_val(&si, &mut rng, &GenCfg { budget: 10, version: eff });
+            // canonical form of the generated value as the caller's real type holds it (maps de-duplicated and ordered)
+            let g = match caller_entry {
+                Some(e) => match vcore::util::catch(|| e.ops.normalize(&g)) {
+                    Ok(x) => x,
+                    Err(_) => continue,
+                },
+                None => g,
+            };
             let Ok(vi) = project(&g, &si, &si, i.max(eff)).or_else(|_| project(&g, &si, &si, eff)) else { continue };
             let Ok(expect_seen) = project(&vi, &si, &sj, eff) else {
                 ctx.count("not_expressible_at_negotiated_version");
@@ -316,11 +330,6 @@ pub fn run(ctx: &mut Ctx) {
                 ])
             };
             // the implementation's value, computed independently with the same generator
-            // families of the additional thorough-tier zoo are labelled XF<n>
-            #[cfg(feature = "extra_zoo")]
-            let fams = if p.family.starts_with('X') { vcore::zoo_extra::families() } else { vcore::zoo::families() };
-            #[cfg(not(feature = "extra_zoo"))]
-            let fams = vcore::zoo::families();
             let produced = fams.get(p.index).and_then(|f| f.versions.get(j as usize)).map(|e| {
                 let mut r2 = Rng::new(seed);
                 let g = model::gen_val(&sj, &mut r2, &GenCfg { budget: 12, version: eff });
